@@ -126,3 +126,8 @@ def check_c15(tier):
     })
     rep.assumptions += ["forwarding rule source_X->eval_q_X, exact_X->eval_exact_X, grad_X->eval_g_X with the exceptions of spec/api_rule.tsv is normative"]
     return rep.finish()
+
+
+def replay(prop, path):
+    from vcommon import replay_by_rerun
+    return replay_by_rerun(prop, path, {"C13": check_c13, "C14": check_c14, "C15": check_c15}[prop])
